@@ -17,6 +17,21 @@ oracle     : (model-independent) real tomography.run (real process pool, and the
              with explicit application of the maps and partial trace; every tensor entry against the exact
              unnormalised comb entry for the basis maps |psi_p><psi_m|; synthetic tensors against the multilinear
              extension computed with an independent least-squares expansion in the code's basis.
+extension (exact comb, `Model/TomoComb.lean`, theorems C17.5-C17.8 of Props/C17.lean):
+  kraus-choi : value tie — the Choi matrix that the builder inside the real predict_final_state computes for a map given
+               by Kraus operators (recorded from the `np.kron` calls of process_tensor.py) vs the model's `krausChoiE`.
+  applychoi  : value tie — the real code's way of applying a held-out map to site 0 of a joint pure state (table of the 16
+               real `_reprepare_site_zero_vector_forced` branches, contracted block by block by the real
+               predict_final_state) vs the model's `applyChoiE J (|psi><psi|)`; oracle: block decomposition without any
+               Choi convention.
+  comb-exact : the real tomography.run / `_tomography_sequence_worker` / re-preparation / aggregation / predict with
+               the segment back-end (`mcwf`, `analog_tjm_1/2`) replaced by an exact given matrix `psi -> U_t psi` (rational
+               non-unitary and float unitary U_t; dense and MPS path): table entries and held-out Kraus predictions vs the
+               model's `physCombT` — the hypothesis `htab` of `c17_exact_dynamics` and its conclusion, with exact segments;
+               oracle: Kraus-form evolution with the same U_t.
+  comb-real  : inside every real tomography run of kind `heldout` (L <= 3): one table entry and one held-out Kraus
+               prediction vs `physCombT` with U_t = scipy expm(-i H t_t) of the independently built dense Hamiltonian;
+               oracle: dense comb through the Choi-matrix route (numpy mirror of `physComb`).
 An exception or a nan/inf coming out of the code under test is reported as a failing input (`CodeRaised`), never as a
 harness crash.  Every real tomography run happens in a forked child with a hard kill.
 
@@ -41,6 +56,7 @@ import implbase as ib
 warnings.simplefilter("ignore")
 
 from mqt.yaqs import simulator as sim_mod  # noqa: E402
+from mqt.yaqs.characterization.tomography import process_tensor as pt_mod  # noqa: E402
 from mqt.yaqs.characterization.tomography import tomography as tomo_mod  # noqa: E402
 from mqt.yaqs.characterization.tomography.process_tensor import ProcessTensor  # noqa: E402
 from mqt.yaqs.core.data_structures.networks import MPO, MPS  # noqa: E402
@@ -322,6 +338,22 @@ def multilinear(tensor, ws):
 def gen(rng, tier):
     yield {"kind": "frame"}
     n = {"quick": 1, "thorough": 16, "search": 2}.get(tier, 1)
+    # extension (exact comb): its own stream, derived from the seed without consuming from `rng` (the older kinds keep their inputs)
+    ext = random.Random("C17-exact-comb:" + str(hash(rng.getstate()[1])))
+    plans = [("MCWF", 1, 2, "rational"), ("MCWF", 2, 2, "rational"), ("TJM", 1, 3, "unitary"), ("MCWF", 2, 3, "unitary"),
+             ("TJM", 2, 2, "unitary"), ("MCWF", 1, 3, "rational")]
+    if tier != "quick":
+        plans += [("MCWF", 3, 2, "rational"), ("TJM", 2, 3, "unitary")]
+        plans += [(ext.choice(["MCWF", "TJM"]), ext.choice([1, 2]), ext.choice([2, 3]), ext.choice(["rational", "unitary"]))
+                  for _ in range(2 * n)]
+    for path, k, length, ukind in plans:
+        yield {"kind": "comb-exact", "path": path, "k": k, "L": length, "ukind": ukind, "sub": ext.randrange(1 << 30)}
+    for i in range(8 * n):
+        yield {"kind": "kraus-choi", "rational": i % 4 == 0, "sub": ext.randrange(1 << 30)}
+    for _ in range(16 * n):
+        yield {"kind": "applychoi", "sub": ext.randrange(1 << 30)}
+    ext_heldout = [{"kind": "heldout", "model": "pauli", "solver": solver, "k": 2, "L": 3, "sub": ext.randrange(1 << 30)}
+                   for solver in ("MCWF", "TJM")]
     # the oracle kinds first (they decide the property), the ties after
     heldout = []
     for model in ("ising", "heis"):
@@ -350,6 +382,7 @@ def gen(rng, tier):
         yield a
         if b:
             yield b
+    yield from ext_heldout      # two slots on the chain that is not mirror symmetric, both back-ends
     for _ in range(3 * n):
         yield {"kind": "layout", "sub": rng.randrange(1 << 30)}
     for _ in range(24 * n):
@@ -680,6 +713,8 @@ def child_heldout(inp):
     out = heldout_cases(pt, h, n, durations, tol, g, 5 if len(durations) < 3 else 3, meta, "heldout")
     if len(durations) <= 2:
         out += comb_entry_cases(pt, h, n, durations, tol, meta, "heldout")
+    if inp.get("kind") == "heldout":
+        out += comb_real_cases(pt, h, n, durations, tol, random.Random(inp["sub"] + 3), np.random.default_rng(inp["sub"] + 3), meta)
     return out, dict(SPEC)
 
 
@@ -808,6 +843,336 @@ def run_trace(inp):
     return out
 
 
+
+# ----------------------------------------------------------------------------------------------- exact comb (extension)
+class _NpSpy:
+    """stands in for the name `np` inside process_tensor.py: records the results of `np.kron`, delegates everything"""
+
+    def __init__(self, log):
+        self._log = log
+
+    def __getattr__(self, name):
+        return getattr(np, name)
+
+    def kron(self, a, b):
+        res = np.kron(a, b)
+        self._log.append(np.array(res, dtype=complex).copy())
+        return res
+
+
+def predict_capturing(pt, emaps):
+    """real predict_final_state; also returns the Choi matrices its builder accumulated (`j_choi += np.kron(rho_out, e_in)`)"""
+    log = []
+    orig = pt_mod.np
+    pt_mod.np = _NpSpy(log)
+    try:
+        pred = real(pt.predict_final_state, emaps)
+    finally:
+        pt_mod.np = orig
+    if len(log) != 4 * len(emaps):
+        raise CodeRaised(f"predict_final_state called np.kron {len(log)} times for {len(emaps)} interventions (expected 4 each)")
+    return pred, [sum(log[4 * t:4 * t + 4]) for t in range(len(emaps))]
+
+
+def kraus_choi_np(ks):
+    """numpy mirror of the model's `krausChoiE`: sum_n vec(A_n) vec(A_n)^dag with the row-major vec"""
+    return sum(np.outer(np.asarray(a, dtype=complex).reshape(-1), np.asarray(a, dtype=complex).reshape(-1).conj()) for a in ks)
+
+
+def apply_choi_np(j, x, d):
+    """numpy mirror of the model's `applyChoi`: out[(a,x),(b,y)] = sum_ij J[2a+i, 2b+j] X[(i,x),(j,y)]"""
+    return np.einsum("aibj,ixjy->axby", np.asarray(j, dtype=complex).reshape(2, 2, 2, 2),
+                     np.asarray(x, dtype=complex).reshape(2, d, 2, d)).reshape(2 * d, 2 * d)
+
+
+def phys_comb_np(us, x0, js):
+    """numpy mirror of the model's `physComb` (slot t: first the intervention J_t, then the segment U_t)"""
+    x = np.asarray(x0, dtype=complex)
+    d = x.shape[0] // 2
+    for u, j in zip(us, js):
+        x = apply_choi_np(j, x, d)
+        x = u @ x @ u.conj().T
+    return np.einsum("axbx->ab", x.reshape(2, d, 2, d))
+
+
+def kraus_final(us, n, kraus_lists):
+    """Kraus-form evolution with given segment matrices (block decomposition, no Choi matrix anywhere)"""
+    rho = np.zeros((2**n, 2**n), dtype=complex)
+    rho[0, 0] = 1.0
+    d = 2 ** (n - 1)
+    for u, ks in zip(us, kraus_lists):
+        rho = apply_local(rho, kraus_map(ks), n)
+        rho = u @ rho @ u.conj().T
+    return np.trace(rho.reshape(2, d, 2, d), axis1=1, axis2=3)
+
+
+def kraus_ops(r, g, slot, rational=False):
+    """(name, Kraus operators) of a completely positive single-qubit map that is not one of the 16 probes"""
+    kinds = ["unitary", "cptp2", "cptp3", "ampdamp", "dephase", "project", "reset", "ratkraus"]
+    if slot == 0:
+        kinds = ["unitary", "cptp2", "ampdamp", "reset", "ratkraus"]
+    kind = "ratkraus" if rational else r.choice(kinds)
+    if kind == "unitary":
+        return kind, [rand_unitary(g)]
+    if kind in ("cptp2", "cptp3"):
+        nk = 2 if kind == "cptp2" else 3
+        z = g.normal(size=(2 * nk, 2)) + 1j * g.normal(size=(2 * nk, 2))
+        q, _ = np.linalg.qr(z)
+        return kind, [q[2 * i:2 * i + 2, :] for i in range(nk)]
+    if kind == "ampdamp":
+        gam = float(g.uniform(0.05, 0.95))
+        u = rand_unitary(g)
+        k0 = np.array([[1, 0], [0, np.sqrt(1 - gam)]], dtype=complex)
+        k1 = np.array([[0, np.sqrt(gam)], [0, 0]], dtype=complex)
+        return kind, [u @ k0 @ u.conj().T, u @ k1 @ u.conj().T]
+    if kind == "dephase":
+        lam = float(g.uniform(0.1, 0.9))
+        u = rand_unitary(g)
+        return kind, [np.sqrt(1 - lam) * np.eye(2, dtype=complex), np.sqrt(lam) * (u @ PAULI["Z"] @ u.conj().T)]
+    if kind == "project":    # trace decreasing
+        v = g.normal(size=2) + 1j * g.normal(size=2)
+        v /= np.linalg.norm(v)
+        return kind, [np.outer(v, v.conj())]
+    if kind == "reset":      # sigma -> Tr(sigma) |phi><phi|
+        v = g.normal(size=2) + 1j * g.normal(size=2)
+        v /= np.linalg.norm(v)
+        return kind, [np.outer(v, [1, 0]).astype(complex), np.outer(v, [0, 1]).astype(complex)]
+    # small Gaussian-rational Kraus operators (completely positive, not trace preserving)
+    nk = r.choice([1, 2, 3])
+    ks = []
+    for _ in range(nk):
+        a = np.array([rational_c(r, 2) for _ in range(4)]).reshape(2, 2)
+        if not np.any(a):
+            a[0, 0] = 1.0
+        ks.append(a)
+    return kind, ks
+
+
+def comb_req(k, d, us, x0, js):
+    return f"comb {k} {d} | " + " | ".join([cvec(u) for u in us] + [cvec(x0)] + [cvec(j) for j in js])
+
+
+def run_kraus_choi(inp):
+    r = random.Random(inp["sub"])
+    g = np.random.default_rng(inp["sub"])
+    name, ks = kraus_ops(r, g, 1, rational=bool(inp.get("rational")))
+    pt = make_pt(np.zeros((4, 16), dtype=complex), 1)
+    _pred, js = predict_capturing(pt, [kraus_map(ks)])
+    j = finite(js[0], "Choi matrix built by predict_final_state")
+    ev = np.linalg.eigvalsh(0.5 * (j + j.conj().T))
+    tr = sum(float(np.real(np.trace(a.conj().T @ a))) for a in ks)
+    herm = float(np.abs(j - j.conj().T).max())
+    ok = ev.min() > -1e-9 * (1 + abs(tr)) and abs(np.trace(j).real - tr) < 1e-9 * (1 + abs(tr)) and herm < 1e-9 * (1 + abs(tr))
+    return {"req": "krauschoi | " + " | ".join(cvec(a) for a in ks), "impl": cfmt(j), "kind": "kraus-choi", "nontrivial": True,
+            "sig": f"krauschoi:{name}:{len(ks)}",
+            "oracle": {"ok": bool(ok), "detail": f"Choi matrix of a {name} map built by predict_final_state: min eigenvalue {ev.min():.2e}, "
+                                                  f"trace {np.trace(j).real:.6g} vs sum Tr(A^dag A) {tr:.6g}, non-hermiticity {herm:.1e}"}}
+
+
+def run_applychoi(inp):
+    """the real code's way of applying a held-out map to site 0 of a joint pure state: the 16 forced re-preparations give
+    the table, predict_final_state contracts it — one environment block (x, y) at a time"""
+    r = random.Random(inp["sub"])
+    g = np.random.default_rng(inp["sub"])
+    d = r.choice([1, 2, 2, 4])
+    style, psi = random_state(r, g, d)
+    basis = real(tomo_mod.get_basis_states)
+    choi, idx = real(tomo_mod.get_choi_basis)
+    mode = r.choice(["kraus", "kraus", "ratkraus", "ratJ"])
+    if mode == "ratJ":       # an arbitrary (not completely positive) 4x4 matrix, handed over as the map it defines
+        name = "ratJ"
+        jm = np.array([rational_c(r, 4) for _ in range(16)]).reshape(4, 4)
+        emap = map_of_choi(jm)
+        ref_map = emap
+    else:
+        name, ks = kraus_ops(r, g, 1, rational=(mode == "ratkraus"))
+        jm = kraus_choi_np(ks)
+        emap = kraus_map(ks)
+        ref_map = emap
+    branches = []
+    for a in range(16):
+        p, m = idx[a]
+        new_psi, prob = real(tomo_mod._reprepare_site_zero_vector_forced, psi.copy(), basis[m][1], basis[p][1])  # noqa: SLF001
+        new_psi = finite(new_psi, "re-prepared state")
+        branches.append(float(prob) * np.outer(new_psi, new_psi.conj()).reshape(2, d, 2, d))
+    probs_seen = [float(np.real(np.trace(b.reshape(2 * d, 2 * d)))) for b in branches]
+    out = np.zeros((2, d, 2, d), dtype=complex)
+    for x in range(d):
+        for y in range(d):
+            t = np.stack([b[:, x, :, y].reshape(4) for b in branches], axis=1)   # shape (4, 16): tensor[o, alpha]
+            out[:, x, :, y] = real(make_pt(t, 1).predict_final_state, [emap])
+    out = finite(out.reshape(2 * d, 2 * d), "prediction")
+    rho_in = np.outer(psi, psi.conj())
+    n = int(round(np.log2(2 * d)))
+    ref = apply_local(rho_in, ref_map, n)
+    sc = 1.0 + float(np.abs(ref).max())
+    dev = float(np.abs(out - ref).max())
+    edge = any(0 < pr < 1e-9 for pr in probs_seen)
+    return {"req": f"applychoi {d} | {cvec(jm)} | {cvec(rho_in)}", "impl": cfmt(out), "kind": "applychoi", "nontrivial": True,
+            "edge": bool(edge), "sig": f"applychoi:{d}:{style}:{name}",
+            "oracle": {"ok": dev <= 1e-9 * sc, "detail": f"(map x id)(|psi><psi|) through re-preparation table + predict vs block decomposition "
+                                                            f"({name}, d={d}, {style}): {dev:.2e}"}}
+
+
+def mps_from_dense(v, length):
+    """an MPS (tensors indexed (phys, left, right)) of a dense vector with site 0 most significant, right-canonical with the
+    orthogonality centre at site 0 — the form in which the real TJM back-ends hand their state back (the read-out of site 0
+    in `_tomography_sequence_worker` is a local contraction at site 0)"""
+    tensors = [None] * length
+    rest = np.asarray(v, dtype=complex).reshape(-1, 1)
+    for site in range(length - 1, 0, -1):
+        chi_r = rest.shape[1]
+        m = rest.reshape(-1, 2 * chi_r)              # rows: sites 0..site-1, columns: (s_site, right bond)
+        q, rr = np.linalg.qr(m.T)                    # m = rr.T @ q.T, rows of q.T orthonormal
+        chi = q.shape[1]
+        tensors[site] = q.T.reshape(chi, 2, chi_r).transpose(1, 0, 2).copy()
+        rest = rr.T
+    tensors[0] = rest.reshape(2, 1, rest.shape[1]).copy()
+    return MPS(length, tensors=tensors, physical_dimensions=[2] * length)
+
+
+def child_comb_exact(inp):
+    r = random.Random(inp["sub"])
+    g = np.random.default_rng(inp["sub"])
+    path, k, n = inp["path"], int(inp["k"]), int(inp["L"])
+    d = 2 ** (n - 1)
+    dim = 2 * d
+    ukind = inp.get("ukind", "unitary")
+    if path == "TJM":
+        ukind = "unitary"     # the MPS read-out (`expect`, `norm`) is only meant for normalised states
+    us = []
+    for _ in range(k):
+        if ukind == "rational":
+            u = np.array([rational_c(r, 2) for _ in range(dim * dim)]).reshape(dim, dim)
+            u = u + np.eye(dim) * r.choice([1, 2])
+        else:
+            u = rand_unitary(g, dim)
+        us.append(u)
+    dt = 0.1
+    durations = [round(dt * (t + 1), 12) for t in range(k)]   # distinct: a fake segment recognises its slot by its duration
+    order = r.choice([1, 2])
+    params = AnalogSimParams(dt=dt, max_bond_dim=16, order=order, solver=path, show_progress=False)
+    op = MPO.ising(length=n, J=1.0, g=0.5)
+    seg_calls = []
+
+    def slot_of(duration):
+        t = int(np.argmin([abs(duration - x) for x in durations]))
+        if abs(durations[t] - duration) > 1e-9:
+            raise CodeRaised(f"segment called with duration {duration!r}, not one of {durations}")
+        return t
+
+    def fake_mcwf(args):
+        _traj, ctx = args
+        t = slot_of(ctx.sim_params.elapsed_time)
+        seg_calls.append(t)
+        ctx.output_state = us[t] @ np.asarray(ctx.psi_initial, dtype=complex)
+        return np.zeros((0, 1))
+
+    def fake_tjm(args):
+        _traj, state, _noise, sp, _op = args
+        t = slot_of(sp.elapsed_time)
+        seg_calls.append(t)
+        sp.output_state = mps_from_dense(us[t] @ mps_dense(state), n)
+        return np.zeros((0, 1))
+
+    def serial(worker_fn, *, payload, n_jobs, max_workers, show_progress=True, desc="", **_kw):  # noqa: ARG001
+        sim_mod.WORKER_CTX.clear()
+        sim_mod.WORKER_CTX.update(payload)
+        for job in range(n_jobs):
+            yield job, worker_fn(job)
+
+    saved = (tomo_mod.mcwf, tomo_mod.analog_tjm_1, tomo_mod.analog_tjm_2, tomo_mod.run_backend_parallel)
+    tomo_mod.mcwf, tomo_mod.analog_tjm_1, tomo_mod.analog_tjm_2, tomo_mod.run_backend_parallel = fake_mcwf, fake_tjm, fake_tjm, serial
+    try:
+        pt = real(tomo_mod.run, op, params, timesteps=list(durations))
+    finally:
+        tomo_mod.mcwf, tomo_mod.analog_tjm_1, tomo_mod.analog_tjm_2, tomo_mod.run_backend_parallel = saved
+    tensor = finite(pt.tensor, "process tensor")
+    weights = np.asarray(pt.weights, dtype=float)
+    x0 = np.zeros((dim, dim), dtype=complex)
+    x0[0, 0] = 1.0
+    meta = {"path": path, "L": n, "k": k, "segments": ukind, "order": order}
+    edge = bool(np.any((weights > 1e-20) & (weights < 1e-10)))
+    scale = 1.0 + float(np.abs(tensor).max())
+    own = [b[1] for b in tomo_mod.get_basis_states()]
+    cidx = [tuple(x) for x in pt.choi_indices]
+    out = []
+    # (a) table entries = the comb on the probes (hypothesis `htab`), Choi matrices: the code's own basis
+    seqs = [tuple(r.randrange(16) for _ in range(k)) for _ in range(3)]
+    flat = sorted(np.ndindex(*weights.shape), key=lambda s: weights[s])
+    seqs.append(tuple(int(x) for x in flat[0]))      # the lightest branch (dead if any is)
+    for seq in seqs:
+        got = tensor[(slice(None), *seq)].reshape(2, 2)
+        ref = kraus_final(us, n, [[np.outer(own[cidx[a][0]], own[cidx[a][1]].conj())] for a in seq])
+        dev = float(np.abs(got - ref).max())
+        out.append({"req": comb_req(k, d, us, x0, [pt.choi_basis[a] for a in seq]), "impl": cfmt(got), "kind": "comb-exact-entry",
+                    "edge": edge, "nontrivial": True, "sig": f"combentry:{path}:{n}:{k}:{ukind}:{weights[seq] > 1e-12}",
+                    "oracle": {"ok": dev <= 1e-9 * scale,
+                               "detail": f"tensor[:, {seq}] of a run with exact segments ({meta}) vs Kraus-form evolution with the probe operators: {dev:.2e}"}})
+    # (b) held-out completely positive maps
+    for _q in range(3):
+        names, kls = [], []
+        for slot in range(k):
+            nm, ks = kraus_ops(r, g, slot)
+            names.append(nm)
+            kls.append(ks)
+        pred = finite(real(pt.predict_final_state, [kraus_map(ks) for ks in kls]), "prediction")
+        ref = kraus_final(us, n, kls)
+        dev = float(np.abs(pred - ref).max())
+        sc = 1.0 + float(np.abs(ref).max()) * scale
+        out.append({"req": comb_req(k, d, us, x0, [kraus_choi_np(ks) for ks in kls]), "impl": cfmt(pred), "kind": "comb-exact",
+                    "edge": edge, "nontrivial": True, "sig": f"combexact:{path}:{n}:{k}:{ukind}:{'/'.join(names)}",
+                    "oracle": {"ok": dev <= 1e-8 * sc,
+                               "detail": f"held-out {'/'.join(names)} on a run with exact segments ({meta}): |predict - Kraus-form evolution| = {dev:.2e}"}})
+    n_seg = len(seg_calls)
+    out.append({"req": None, "impl": None, "kind": "comb-exact-calls", "sig": f"combcalls:{path}:{k}",
+                "oracle": {"ok": n_seg <= k * 16**k and all(0 <= t < k for t in seg_calls),
+                           "detail": f"{n_seg} segment calls for {16**k} sequences of {k} slots"}})
+    return out
+
+
+def run_comb_exact(inp):
+    return in_child(child_comb_exact, inp, 180)
+
+
+def comb_real_cases(pt, h, n, durations, tol, r, g, meta):
+    """real simulation vs the model's exact comb with U_t = expm(-i H t_t): one table entry (hypothesis `htab`), one held-out
+    prediction (conclusion of `c17_exact_dynamics`); oracle through the Choi-matrix route"""
+    k = len(durations)
+    d = 2 ** (n - 1)
+    dim = 2 * d
+    us = [expm(-1j * h * t) for t in durations]
+    x0 = np.zeros((dim, dim), dtype=complex)
+    x0[0, 0] = 1.0
+    tied = n <= 3       # every back-end is exact up to rounding there (TOL_EXACT); L = 4 TJM only through the oracle
+    out = []
+    seq = tuple(r.randrange(16) for _ in range(k))
+    got = finite(np.asarray(pt.tensor)[(slice(None), *seq)].reshape(2, 2), "tensor entry")
+    js = [pt.choi_basis[a] for a in seq]
+    ref = phys_comb_np(us, x0, js)
+    dev = float(np.abs(got - ref).max())
+    out.append({"req": comb_req(k, d, us, x0, js) if tied else None, "impl": cfmt(got) if tied else None, "kind": "comb-real-entry",
+                "nontrivial": True, "sig": f"combrealentry:{meta['model']}:{n}:{meta['solver']}:{k}", "dev": dev,
+                "oracle": {"ok": dev <= tol, "detail": f"tensor[:, {seq}] on {meta} vs dense comb (Choi route, expm): {dev:.2e} (tol {tol:.0e})"}})
+    names, kls = [], []
+    for slot in range(k):
+        nm, ks = kraus_ops(r, g, slot)
+        names.append(nm)
+        kls.append(ks)
+    pred, jcap = predict_capturing(pt, [kraus_map(ks) for ks in kls])
+    pred = finite(pred, "prediction")
+    js = [kraus_choi_np(ks) for ks in kls]
+    ref = phys_comb_np(us, x0, js)
+    dev = float(np.abs(pred - ref).max())
+    jdev = max(float(np.abs(a - b).max()) for a, b in zip(jcap, js))
+    out.append({"req": comb_req(k, d, us, x0, js) if tied else None, "impl": cfmt(pred) if tied else None, "kind": "comb-real",
+                "nontrivial": True, "sig": f"combreal:{meta['model']}:{n}:{meta['solver']}:{meta['order']}:{k}:{'/'.join(names)}", "dev": dev,
+                "oracle": {"ok": dev <= tol and jdev <= 1e-9,
+                           "detail": f"held-out {'/'.join(names)} on {meta}: |predict - dense comb (Choi route, expm)| = {dev:.2e} (tol {tol:.0e}); "
+                                     f"Choi matrices built by the code vs sum vec(A)vec(A)^dag: {jdev:.1e}"}})
+    return out
+
+
 def run(inp):
     try:
         return run_inner(inp)
@@ -832,6 +1197,12 @@ def run_inner(inp):
         return run_heldout(inp)
     if k == "trace":
         return run_trace(inp)
+    if k == "kraus-choi":
+        return run_kraus_choi(inp)
+    if k == "applychoi":
+        return run_applychoi(inp)
+    if k == "comb-exact":
+        return run_comb_exact(inp)
     raise ValueError(k)
 
 
@@ -847,9 +1218,17 @@ if __name__ == "__main__":
             rule="frame (4 preparations, 16 Choi basis matrices, 16 duals, biorthogonality) + seeded: synthetic rational "
                  "tensors k=1..3 x intervention kinds; storage layout; random small states (dense / MPS, dead branches included) x (m, p); "
                  "real tomography runs (Ising/Heisenberg, L=2..3 (4 thorough), TJM order 1/2 and MCWF, k=1..2 (3 thorough)) "
-                 "with in-situ traces and held-out interventions; distinct = distinct (kind, size, back-end, branch) signatures",
+                 "with in-situ traces and held-out interventions; distinct = distinct (kind, size, back-end, branch) signatures; "
+                 "extension (exact comb): Choi matrix of Kraus maps as built by predict_final_state vs krausChoiE; (map x id) on joint pure "
+                 "states through the real re-preparation table + predict vs applyChoiE (d = 1, 2, 4); real run/worker/predict with the "
+                 "segment back-end replaced by exact given matrices (dense and MPS path, k = 1..2 (3 thorough), L = 2..3, rational "
+                 "non-unitary and float unitary) vs physCombT — table entries and held-out Kraus maps; every real `heldout` run "
+                 "(L <= 3): one table entry and one held-out Kraus prediction vs physCombT with U_t = expm(-i H t_t)",
             trusted_base=["scipy.linalg.expm / numpy dense linear algebra in the oracles",
-                          "multilinearity of the physical comb in the Choi matrices of the interventions (cited, hypothesis of c17_partial)"],
+                          "multilinearity of the physical comb in the Choi matrices of the interventions (cited, hypothesis of c17_partial)",
+                          "for the exact-dynamics model of Model/TomoComb.lean multilinearity is a theorem (physComb_multilinear); "
+                          "c17_exact_dynamics keeps only the table hypothesis (the segments of the simulator are the exact evolution), "
+                          "measured by the kinds comb-real*, heldout-entries and made true by construction in comb-exact*"],
             assumptions=["states / tensors handed to the model are the binary64 values the implementation saw, as exact rationals",
                          "noise-free dynamics; L <= 3 so that the TDVP bond dimensions saturate and every back-end is exact up to rounding"],
             spec=spec,
